@@ -9,25 +9,25 @@ TECH = "stateless bounded-exhaustive exploration of the real code (choice-prefix
 # id -> (implemented, level text, level note, design ref, technique)
 P = {
  "C14": (True,
-  "All redirect shapes inside the bound (chains 0..13 x terminal kind x types dependency, cycles 1..4 x tails 0..3, two loader redirect limits, second entry points, lockfile-seeded chains 1..15 and cycles with/without a build) are built with the real builder and every lookup is compared with the walk on every specifier of interest; the space is enumerated completely (Full), so the verdict is a coverage statement for that space.",
+  "All redirect shapes inside the bound (chains 0..13 x terminal kind x types dependency, cycles 1..4 x tails 0..3, two loader redirect limits, second entry points, a types dependency reached directly or behind 1-2 redirects, lockfile-seeded chains 1..15 and cycles with/without a build) are built with the real builder and every lookup is compared with the walk on every specifier of interest; that space is enumerated completely (Full). A further part explores fault histories deviation-bounded: chains of 1-3 hops entered again from a dynamic branch and from a second build while every load of a chain member may answer honestly, with not-found, an error or a redirect to any chain member.",
   "Trusted: the harness loader/driver, ModuleGraph::walk as the reference (the property names it as such). Shapes beyond the bound are not covered.",
   "DESIGN.md §4 C14", TECH + "; Full enumeration of redirect shapes"),
 
  "C06": (True,
   "The version-selection routine the builder calls is evaluated on every registry over the version domain (each version absent/live/yanked x created_at none/before/at/after the cutoff), every requirement, every set of already-selected and cached versions and every date/exclusion configuration, and compared with a declarative four-tier reference; complete enumeration of that bounded domain.",
-  "Function level only so far (graph-level bookkeeping: planned part). Trusted: deno_semver's VersionReq::matches and Version ordering (used by both sides).",
+  "Second part (deviation-bounded): real builds against a scripted registry - up to 3 requirements on one package resolved in visit order, lockfile-seeded selections, cutoff date / exclusions, prefer_cached_jsr_versions with cached manifest subsets, version tags, the cache-busting restart - compared per import with the function-level reference applied in visit order. Trusted: deno_semver's VersionReq::matches and Version ordering (used by both sides).",
   "DESIGN.md §4 C06", TECH + "; Full enumeration of the bounded selection domain against a reference model"),
  "C20": (True,
-  "Every byte string over a 19-atom alphabet up to the tier's length is loaded as a root module under every charset header x scheme x media type through the real builder; stored text, try_get_original_bytes and the serialised size are compared with an independent reference decoder (WHATWG UTF-16 state machine, from_utf8_lossy, cp1252 table). Complete enumeration.",
+  "Every byte string over a 19-atom alphabet up to the tier's length is loaded as a root module under every charset header x scheme x media type through the real builder, and (second part) served as registry files whose content load is deferred (embedded module graph); stored text, try_get_original_bytes and the serialised size are compared with an independent reference decoder (WHATWG UTF-16 state machine, from_utf8_lossy, cp1252 table). Complete enumeration.",
   "Trusted: the reference decoder, std's from_utf8_lossy. TS modules whose decoded text does not parse are unobservable (JSON modules cover every string).",
   "DESIGN.md §4 C20", TECH + "; Full enumeration of byte strings x charset x scheme x media type against an independent decoder"),
 
  "C17": (True,
-  "Every world inside the deviation bound (entry kinds x attributes x import forms x targets x local/remote, 3 option sets) is built twice with the real builder (All then prune_types(), and CodeOnly) and the code-level views are compared; residues of type information in the pruned graph are checked. All worlds within the completed deviation bound are enumerated (the evidence states the bound).",
+  "Every world inside the deviation bound (entry kinds x attributes x import forms x targets x local/remote, 3 option sets), every core-alphabet world, and every generated package graph carrying fast-check data is built twice with the real builder (All [+ fast check] then prune_types(), and CodeOnly) and the code-level views are compared; residues of type information and fast-check data in the pruned graph are checked. All worlds within the completed deviation bound are enumerated (the evidence states the bound).",
   "Differential oracle, no reference model. Errors compared by kind and specifier, not by referrer. Worlds violating the same-attribute proviso (also through redirects, roots, types header, pragma) are not generated; source-phase imports of otherwise-loaded specifiers are excluded here and reported under C01.",
   "DESIGN.md §4 C17", TECH + "; deviation-bounded enumeration of module worlds, differential oracle"),
  "C18": (True,
-  "For every world inside the deviation bound, every graph kind and every set of <= 2 module-holding specifiers as segment roots: each dependency of each module in the segment resolves and looks up as in the original, validation verdicts agree, and for non-original roots the listing equals a direct build of those roots.",
+  "For every world inside the deviation bound, every graph kind and every set of <= 2 module-holding specifiers as segment roots: each dependency of each module in the segment resolves and looks up as in the original, validation verdicts agree, for non-original roots the listing equals a direct build of those roots, and a segment of the segment equals the segment of the original (where the statement promises it).",
   "Differential oracle. Segment roots are specifiers that no import loads as an asset (same-attribute proviso; a root is an attribute-less import).",
   "DESIGN.md §4 C18", TECH + "; deviation-bounded enumeration of module worlds x graph kinds x segment roots, differential oracle"),
  "C02": (True,
@@ -35,43 +35,43 @@ P = {
   "The reachability reference reads Module::dependencies / redirects / imports through the public API. A root of unknown media type is (leniently) JavaScript and not counted as a failure; the resolution of a configured import itself is outside the statement.",
   "DESIGN.md §4 C02", TECH + "; Full enumeration of failure placements + deviation-bounded worlds, oracle = construction ground truth and reachability reference"),
  "C15": (True,
-  "Every graph built from a world inside the deviation bound is walked from every root set of <= 2 world specifiers under all 36 option sets, plain and with skip_previous_dependencies() after each single entry / every entry; yielded sets (no duplicates) and keyed error listings are compared with a set-based reference fixpoint.",
-  "Reference fixpoint written over the public API (serialised slot table, redirects, imports, dependencies). Generic worlds have no fast-check modules.",
+  "Every graph built from a world inside the deviation bound is walked from every root set of <= 2 world specifiers under all 36 option sets, plain and with skip_previous_dependencies() after each single entry / every entry; yielded sets (no duplicates) and keyed error listings are compared with a set-based reference fixpoint. A further part walks graphs that carry fast-check modules (generated packages after build_fast_check_type_graph, with failing imports that only function bodies use) under all 36 option sets incl. prefer_fast_check_graph.",
+  "Reference fixpoint written over the public API (serialised slot table, redirects, imports, dependencies). Generic worlds have no fast-check modules; the fast-check part supplies them.",
   "DESIGN.md §4 C15", TECH + "; deviation-bounded worlds x all walk options x root sets x skip sets against a reference fixpoint"),
  "C19": (True,
-  "Every history of up to 3 (quick) / 4 (thorough) operations over {build(r0), build(r1), build(r0,r1), edit+reload(m)} is replayed on a live graph for every world (with one alternative import list / repaired variant per module) inside the deviation bound; after each operation the live graph is compared with a from-scratch build of the roots so far on the current sources, rebuilds of known roots must be no-ops, and unreachable leftovers must be untouched.",
+  "Every history of up to 3 (quick) / 4 (thorough) operations over {build(r0), build(r1), build(r0,r1), build(r0) with a configured type import, edit+reload(m) by the module's own specifier or by a recorded redirecting specifier} is replayed on a live graph for every world (generic worlds and worlds around redirect chains of 1-3 hops; one alternative import list / repaired variant per module; graph kind as a choice) inside the deviation bound; after each operation the live graph is compared with a from-scratch build of the roots so far on the current sources, rebuilds of known roots must be no-ops, and unreachable leftovers must be untouched.",
   "Differential oracle. Error entries compared without referrer. Specifiers that some import loads as an asset are not reloaded (a reload is an attribute-less load).",
   "DESIGN.md §4 C19", TECH + "; exhaustive operation histories up to a depth x deviation-bounded worlds, differential oracle against from-scratch builds"),
  "C03": (True,
-  "For four fixtures (plain, registry, registry with embedded module graphs + cache misses, npm+node) every assignment of an answer kind to the loader calls the build issues is explored up to the completed number of deviations (one fault anywhere: all; pairs/triples: per tier) with 12 answer kinds for load (+6 for registry metadata), 5 for ensure_cached and 3 npm resolver answers. Every run is checked for: no panic, the build future completes, no unfinished entry / [INTERNAL ERROR], terminal faults become error entries with a referrer, non-interference against the fault-free build.",
+  "For four fixtures (plain, registry, registry with embedded module graphs + cache misses, npm+node) every assignment of an answer kind to the loader calls the build issues is explored up to the completed number of deviations (one fault anywhere: all; pairs/triples: per tier) with 15 answer kinds for load (+6 for registry metadata), 5 for ensure_cached and 3 npm resolver answers; every fixture re-requests settled specifiers (dynamic branch, optional second build on the same graph), the registry fixtures take prefer_cached_jsr_versions as a choice and contain unsatisfiable / yanked-only requirements; one part combines faults with EVERY completion order of the gated loader futures. Every run is checked for: no panic, the build future completes, no unfinished entry / [INTERNAL ERROR], terminal faults become error entries with a referrer, non-interference against the fault-free build.",
   "Faults beyond the completed deviation bound and worlds beyond the four fixtures are not covered. Registry files ignore response headers by design; files with embedded module information are not parsed.",
   "DESIGN.md §4 C03", TECH + "; deviation-bounded fault assignment over every loader call (fault enumeration), differential non-interference oracle"),
  "C04": (True,
-  "For 12 collision worlds every completion order of the gated Loader futures (and, with the queued executor, every order of polling spawned metadata tasks) and every permutation of the builder's hash-map drains is enumerated (Full; deviation-bounded for the two largest); each run's graph observation incl. error referrers, final lockfile content and multiset of lockfile writes must equal the all-ready run.",
-  "Owns: loader completion order, executor task order, hash-map drain order (hook). Does not inject extra suspensions of released futures. Worlds are hand-built to collide; more than ~8 simultaneously outstanding operations are not explored.",
+  "For 14 collision worlds (two with prefer_cached_jsr_versions and partly cached manifests) and for every core-alphabet world x graph kind, every completion order of the gated Loader futures (and, with the queued executor, every order of polling spawned metadata tasks) and every permutation of the builder's hash-map drains and of the issue order of the cache-only probes is enumerated (Full; deviation-bounded for the largest), plus 0-2 extra suspensions of released futures (deviation-bounded); each run's graph observation incl. error referrers, final lockfile content and multiset of lockfile writes must equal the all-ready run.",
+  "Owns: loader completion order, executor task order, hash-map drain / issue order (3 hook sites), extra suspensions. Scenario worlds are hand-built to collide, the generated ones are complete over the core alphabet; more than ~8 simultaneously outstanding operations are not explored.",
   "DESIGN.md §4 C04", TECH + "; exhaustive enumeration of completion orders and drain permutations under a controlled scheduler"),
  "C05": (True,
-  "One composite world reaches a remote module statically / dynamically / as text asset / behind a redirect / as declaration / with BOM / with invalid UTF-8, a jsr: package with a sub-path, and an https URL into the registry as module and as asset. Every assignment of lockfile state x served bytes to the 11 resources (+ manifests, redirecting URL, embedded module graph, cache probe) inside the deviation bound is built with the real builder under a checksum-verifying loader; a monitor over the Loader and Locker call logs decides presentation, admission, retries, redirect rejection and recording.",
+  "One composite world reaches a remote module statically / dynamically / as text asset / behind a redirect / as declaration / with BOM / with invalid UTF-8, a jsr: package with a sub-path, and an https URL into the registry as module and as asset. Every assignment of lockfile state x served bytes to the 12 resources (+ manifests, redirecting URL, a redirect seeded from the lockfile, embedded module graph, cache probe, an optional reload of one resource afterwards) inside the deviation bound is built with the real builder under a checksum-verifying loader; a monitor over the Loader and Locker call logs decides presentation, admission, retries, redirect rejection and recording.",
   "The scripted loader verifies presented checksums like a real cache. prefer_cached_jsr_versions is off. One world; assignments bounded by deviations from all-honest/empty-lockfile.",
   "DESIGN.md §4 C05", TECH + "; deviation-bounded enumeration of lockfile x tamper assignments with a call-log monitor"),
  "C01": (True,
-  "Every world inside the bound (deviation-bounded generic worlds over all entry kinds, 20 import forms, special targets, attributes, redirects, local/remote, types header; plus the complete enumeration of core-alphabet worlds with <= 3 edges) is built under 3 graph kinds x 3 option sets and compared with (1) reference rules deriving each module's recorded dependencies from the renderer's record of what it wrote, (2) the least closure of the roots under the follow rules, computed over the reference dependencies, (3) the loader call log (single content load per specifier, redirects recorded), (4) entry kinds fixed by the world.",
-  "The reference rules (about 25, each mirroring a sentence of the statement and anchored in graph.rs) are part of the trusted base; default resolution only (no custom resolver / npm resolver / jsr passthrough). Worlds outside the same-attribute proviso are not generated; redirect cycles are C14's.",
+  "Every world inside the bound (deviation-bounded generic worlds over all entry kinds, 22 import forms, special targets, attributes, redirects, local/remote, types header; plus the complete enumeration of core-alphabet worlds with <= 3 edges) is built under 3 graph kinds x 10 option sets (all combinations of skip_dynamic_deps x is_dynamic x unstable text/bytes; custom resolver with resolve_types and default JSX import source + npm resolver + jsr passthrough + configured import; redirects seeded from the lockfile) and compared with (1) reference rules deriving each module's recorded dependencies from the renderer's record of what it wrote, (2) the least closure of the roots under the follow rules, computed over the reference dependencies, (3) the loader call log (single content load per specifier, redirects recorded), (4) entry kinds fixed by the world.",
+  "The reference rules (about 25, each mirroring a sentence of the statement and anchored in graph.rs) are part of the trusted base. Worlds outside the same-attribute proviso are not generated; redirect cycles are C14's.",
   "DESIGN.md §4 C01", TECH + "; deviation-bounded + complete core enumeration of module worlds against a reference model of declared dependencies and closure"),
  "C08": (True,
   "All programs of <= 2 (quick) / <= 3 (thorough) items over a 28-form dependency syntax alphabet x 6 media types are generated (form choice complete; spelling, quotes, trivia, CRLF, BOM, shebang deviation-bounded), analysed with the real analyser and built into a graph; reported (kind, unescaped specifier, attribute) multisets, byte-exact ranges (independent position mapper) and Dependency::includes over every text position are compared with the renderer's record. Every module source of the spec corpus is checked with the generic range oracle.",
   "Trusted: the renderer's bookkeeping, the independent (line, scalar-value) -> byte mapper. Forms outside the alphabet are only covered through the corpus.",
   "DESIGN.md §4 C08", TECH + "; complete enumeration of short programs over a syntax alphabet (deviation-bounded trivia/spelling) + full corpus"),
  "C13": (True,
-  "Four exhaustive-within-bound parts: round trip (value and string) of every ModuleInfo the analyser produces over the C08 program space; round trip of ModuleInfo values enumerated directly over per-field alphabets (deviation-bounded from the default value); all 56 moduleGraph1 leading-comment shapes upgraded and compared with analysing the equivalent source; registry packages (5 source files, generated import lists, 3 root import forms, 2 entrypoints) published with and without an embedded module graph and built with cache-probe hit / miss, graphs compared.",
+  "Four exhaustive-within-bound parts: round trip (value and string) of every ModuleInfo the analyser produces over the C08 program space; round trip of ModuleInfo values enumerated directly over per-field alphabets (deviation-bounded from the default value); all moduleGraph1 shapes of 1-3 imports (per import: 7 pragma forms, unrelated comments, omitted key) upgraded and compared with analysing the equivalent source; registry packages (5 source files, generated import lists, 3 root import forms, 2 entrypoints) published with and without an embedded module graph and built with cache-probe hit / miss, graphs compared.",
   "Premise of the statement: the embedded information is produced by this analyser from those sources (the fixture does exactly that).",
   "DESIGN.md §4 C13", TECH + "; enumeration of values / programs / packages, round-trip and differential oracles"),
  "C07": (True,
-  "Registries of 2 packages x 2 versions (5 exports shapes, per-file import lists over relative / jsr: / npm: / https-into-registry / self / unknown-export forms) and importing programs of <= 3 imports are built with the real builder inside the deviation bound; redirects, mappings, exports used, package dependency edges and unknown-export errors are compared with a reference recomputed from the fixture; package URL <-> name@version is round-tripped for every file and probed with near-miss URLs.",
+  "Registries of 2 packages x 2 versions (5 exports shapes, per-file import lists over relative / jsr: / npm: / https-into-registry / self / unknown-export forms) and importing programs of <= 3 imports - optionally built in two steps on one graph, with lockfile-seeded selections, or with passthrough_jsr_specifiers - are built with the real builder inside the deviation bound; redirects, mappings, exports used, package dependency edges and unknown-export errors are compared with a reference recomputed from the fixture; package URL <-> name@version is round-tripped for every file and probed with near-miss URLs.",
   "Every requirement of the alphabet matches exactly one published version (selection order is C06's subject). Default JsrUrlProvider only.",
   "DESIGN.md §4 C07", TECH + "; deviation-bounded enumeration of registries x importing programs against reference bookkeeping"),
  "C09": (True,
-  "Every generated package inside the deviation bound (3 declaration slots x 51 templates x 18 reference forms, 6 helper-module variants, 3 entrypoint sets) and every package of the fast-check spec corpus goes through the real fast-check transform; each emitted module is re-parsed with scope analysis and checked for dangling references, imports of names the emitted counterpart does not export, unresolvable relative specifiers and source-map well-formedness / identifier fidelity.",
+  "Every generated package inside the deviation bound (3 declaration slots x ~90 templates x 23 reference forms, nested export-* barrels, 7 helper-module variants, 3 entrypoint sets, registry package or workspace member, one or two build + fast-check steps on one graph) and every package of the fast-check spec corpus goes through the real fast-check transform; each emitted module is re-parsed with scope analysis and checked for dangling references, imports of names the emitted counterpart does not export, unresolvable relative specifiers and source-map well-formedness / identifier fidelity.",
   "Emitted text is re-parsed with the same swc parser the subject uses (common-mode risk); export / signature / unresolved-identifier extractors and the VLQ source-map decoder are the harness's own. Packages that get diagnostics instead of output are only counted.",
   "DESIGN.md §4 C09-C11", TECH + "; deviation-bounded enumeration of generated packages + full corpus, closure oracle on the re-parsed output"),
  "C10": (True,
@@ -83,8 +83,8 @@ P = {
   "Emitted text is re-parsed with the same swc parser the subject uses (common-mode risk); export / signature / unresolved-identifier extractors and the VLQ source-map decoder are the harness's own. Packages that get diagnostics instead of output are only counted. Overload implementation signatures are not public API and are not compared.",
   "DESIGN.md §4 C09-C11", TECH + "; deviation-bounded enumeration of generated packages + full corpus, relational API-preservation oracle"),
  "C12": (True,
-  "All operation histories up to depth 4 (quick) / 5 (thorough) over a two-package world with 2-3 source variants per module are replayed against the real fast-check transform with one shared cache (cold, warm, stale entries arise along the history); after each operation all-or-nothing per package is checked with and without the cache, recorded dependencies of every emitted module are compared with a re-analysis of the emitted text, the with-cache result is compared with the cache-less one, and two cache-less runs are compared.",
-  "One hand-built world (5 modules, 14 variants); workspace members and fast_check_dts are outside it. Each operation rebuilds the graph from the current sources.",
+  "All operation histories up to depth 4 (quick) / 5 (thorough) over a three-package world (two packages leading to a third; editable root program; first package as registry package or workspace member) with 2-4 source variants per module are replayed against the real fast-check transform with one shared cache (cold, warm, stale entries arise along the history); after each operation all-or-nothing per package is checked with and without the cache, recorded dependencies of every emitted module are compared with a re-analysis of the emitted text, the with-cache result is compared with the cache-less one, two cache-less runs are compared, and a second pass over the same graph object must change nothing.",
+  "One hand-built world (7 modules, 20 variants); fast_check_dts is outside it. Each operation rebuilds the graph from the current sources.",
   "DESIGN.md §4 C12", TECH + "; exhaustive operation histories over source variants with a shared cache, differential oracle against cache-less runs"),
  "C16": (True,
   "ALL star re-export graphs over 3 (quick) / 4 (thorough) modules x own-export assignments are built and the resolved export set of every module is compared with the least fixpoint the ES rules define (own names first, default never re-exported by star, cycles terminate under the watchdog); the symbol tables of the generated C09 packages (incl. dotted namespaces, merged declarations, overloads, expando, class members) and of the symbol spec corpus are checked to be trees consistent with their parent pointers, with sound declaration names / ranges / ids, and go-to-definition is run from every symbol.",
